@@ -97,7 +97,11 @@ impl UpdateTrailingTrivia for UnOp {
 }
 impl UpdateLeadingTrivia for TokenReference {
     open spec fn same_sem(&self, r: &Self) -> bool { tok_of(*r) == tok_of(*self) }
-    open spec fn lead_ok(&self, t: FormatTriviaType, r: &Self) -> bool { tok_open(*r) == tok_open(*self) && (ftt_new_line(t) ==> tok_nl(*r)) }
+    open spec fn lead_ok(&self, t: FormatTriviaType, r: &Self) -> bool {
+        tok_open(*r) == tok_open(*self) && (ftt_new_line(t) ==> tok_nl(*r))
+        // Append puts the new trivia behind the leading trivia the token has
+        && (t is Append ==> tr_lead(*r) == tr_lead(*self) + t->Append_0@)
+    }
     open spec fn on_new_line(&self) -> bool { tok_nl(*self) }
     open spec fn rest_same(&self, r: &Self) -> bool { tok_open(*r) == tok_open(*self) }
     #[verifier::external_body] fn update_leading_trivia(&self, leading_trivia: FormatTriviaType) -> (r: Self) { unimplemented!() }
